@@ -8,6 +8,7 @@ import (
 	"bytes"
 	"encoding/gob"
 	"fmt"
+	"sort"
 
 	"github.com/Tom-Johnston/mamba/dawg"
 
@@ -365,6 +366,21 @@ func boundaries() []boundary {
 	bs = append(bs, boundary{"binary-words-of-length-16-plus-1^16zz(65537 words, ids>=65536)", func() [][]byte {
 		return append(binaryWords(16), append(bytes.Repeat([]byte{'1'}, 16), 'z', 'z'))
 	}, false, false})
+	// more than 65536 NODES (node indices, and hence ids under any numbering, need 3 bytes): words with random tails share next to nothing
+	bs = append(bs, boundary{"9000-fixed-pseudo-random-words-of-length-12(>65536 nodes)", func() [][]byte {
+		rg := engine.NewRng(777)
+		seen := map[string]bool{}
+		var ws [][]byte
+		for len(ws) < 9000 {
+			w := rg.Bytes(12)
+			if !seen[string(w)] {
+				seen[string(w)] = true
+				ws = append(ws, w)
+			}
+		}
+		sort.Slice(ws, func(i, j int) bool { return bytes.Compare(ws[i], ws[j]) < 0 })
+		return ws
+	}, false, true})
 	// the same word counts with two levels of 256 children (GobEncode walks every path and takes seconds here: thorough)
 	bs = append(bs, boundary{"all-two-byte-words(65536 words)", allTwoByteWords, true, true})
 	// word counts 126..129 and 254..257 with small automata: k single letters below a prefix is covered by the fans; here k words a^i b
